@@ -1180,6 +1180,9 @@ def _put_slice_stmtlike_old(
         if field == 'orelse' and len_body == 1 and (f := body[0].f).is_elif():
             _elif_to_else_if(f, fst.FST.get_option('docstr', options))
 
+            if put_fst:
+                block_indent = f._get_block_indent()  # the new 'if' sits at its own indentation in the new 'else:' block, not necessarily what the old 'elif' body had
+
         if fpre:
             block_loc = fstloc(*fpre.bloc[2:], *(fpost.bloc[:2] if fpost else fpre._next_bound_step()))
             is_last_child = not fpost and not fpre.next()
